@@ -140,6 +140,15 @@ class Canon:
 
     # ------------------------------------------------------------------
     def c(self, n):
+        if self.uniform:
+            # a substituted non-type template parameter is named, not valued: every instantiation prints alike
+            x = n
+            while x is not None and x.get("k") in ("ImplicitCastExpr", "ParenExpr", "ConstantExpr", "CXXFunctionalCastExpr",
+                                                   "CStyleCastExpr", "CXXStaticCastExpr", "SubstNonTypeTemplateParmExpr"):
+                if x.get("k") == "SubstNonTypeTemplateParmExpr" and x.get("param"):
+                    return x["param"]
+                cc = x.get("c") or []
+                x = cc[0] if len(cc) == 1 else None
         s = strip(n, casts=True)
         if s is None:
             return "<none>"
